@@ -44,6 +44,9 @@ pub enum Srv {
     StalledThenGone(Vec<u8>, Vec<u8>, bool),
     /// send a heartbeat every `ms` milliseconds and nothing else (a timeout must be configured)
     HeartbeatsOnly(u64),
+    /// the same, but every heartbeat reaches the client in two pieces a moment apart (frames
+    /// do not respect segment boundaries)
+    SplitHeartbeatsOnly(u64),
     /// think for this many milliseconds before going on
     Pause(u64),
     Eof,
@@ -195,7 +198,13 @@ pub fn gen_script(r: &mut Rng, o: &Opts, props: &FieldTable) -> Script {
                 let text = wire::rand_shortstr(r);
                 set(&mut s, 2, vec![Srv::SendThenFailWrites(conn_close_frame(code, &text))], &format!("ServerClosedConnection({},{:?})", code, text), "Close instead of OpenOk, then writes fail")
             }
-            4 if o.timeout_ms.is_some() && r.bool() => set(&mut s, 2, vec![Srv::HeartbeatsOnly(o.timeout_ms.unwrap() / 5 + 1)], silence_expect, "heartbeats but never OpenOk"),
+            4 if o.timeout_ms.is_some() && r.bool() => {
+                if r.bool() {
+                    set(&mut s, 2, vec![Srv::HeartbeatsOnly(o.timeout_ms.unwrap() / 5 + 1)], silence_expect, "heartbeats but never OpenOk")
+                } else {
+                    set(&mut s, 2, vec![Srv::SplitHeartbeatsOnly(o.timeout_ms.unwrap() / 5 + 1)], silence_expect, "heartbeats in two pieces each but never OpenOk")
+                }
+            }
             2 => set(&mut s, 2, vec![Srv::Eof], "UnexpectedSocketClose", "EOF instead of OpenOk"),
             3 => set(&mut s, 2, vec![Srv::Reset], "IoErrorReadingSocket(ConnectionReset)", "reset instead of OpenOk"),
             4 if o.timeout_ms.is_some() => set(&mut s, 2, vec![Srv::Silence], silence_expect, "silence instead of OpenOk"),
@@ -356,12 +365,21 @@ pub fn run_script(o: &Opts, s: &Script, props: &FieldTable, seg: Segmenter, wfra
                     res.obs("closes_behind_a_stuck_answer", 1);
                 }
                 Srv::Pause(ms) => std::thread::sleep(Duration::from_millis(*ms)),
-                Srv::HeartbeatsOnly(ms) => {
+                Srv::HeartbeatsOnly(ms) | Srv::SplitHeartbeatsOnly(ms) => {
+                    let split = matches!(a, Srv::SplitHeartbeatsOnly(_));
                     // the broker is alive (it keeps sending heartbeats) but never gets round to
                     // answering; runs until the client gives up or a generous bound has passed
                     silent = true;
                     let until = Instant::now() + Duration::from_millis(o.timeout_ms.unwrap_or(0) * 4 + 3000);
                     while Instant::now() < until && !task.is_finished() {
+                        if split {
+                            let f = hb_frame();
+                            h.inject(f[..3].to_vec());
+                            std::thread::sleep(Duration::from_millis(*ms / 2));
+                            h.inject(f[3..].to_vec());
+                            std::thread::sleep(Duration::from_millis(*ms - *ms / 2));
+                            continue;
+                        }
                         h.inject(hb_frame());
                         std::thread::sleep(Duration::from_millis(*ms));
                     }
@@ -401,7 +419,7 @@ pub fn run_script(o: &Opts, s: &Script, props: &FieldTable, seg: Segmenter, wfra
         }
         // a broker that only sends heartbeats is not answering: the attempt must not go on
         // for as long as the heartbeats do (they went on for 4 x timeout + 3 s here)
-        let heartbeating = s.steps.iter().flatten().any(|a| matches!(a, Srv::HeartbeatsOnly(_)));
+        let heartbeating = s.steps.iter().flatten().any(|a| matches!(a, Srv::HeartbeatsOnly(_) | Srv::SplitHeartbeatsOnly(_)));
         if heartbeating && elapsed > Duration::from_millis(t) + Duration::from_millis(2500) {
             res.violate("handshake_hangs", format!("{}: connection_timeout {} ms, the attempt only ended after {:?} (when the heartbeats stopped)", s.label, t, elapsed));
         }
